@@ -2,7 +2,9 @@ import Sqljson.Audit
 import Sqljson.Props.C16b
 import Sqljson.Props.C16
 import Sqljson.Props.C16c
+import Sqljson.Props.C16d
 #audit_ns C16 Sqljson.C16
 #audit_ns C16 Sqljson.C16b
 #audit C16 [Sqljson.FloatText.shortest_roundtrips, Sqljson.FloatText.found_wf, Sqljson.FloatText.parse_layoutF]
 #audit_ns C16 Sqljson.C16c
+#audit_ns C16 Sqljson.C16d
